@@ -133,6 +133,12 @@ func (e *fnEnc) selectInstr(st *state, v *ssa.Select) {
 		lo = -1
 	}
 	e.assume(st, and(app("bvsge", idx, bvLit(64, uint64(int64(lo)))), app("bvslt", idx, bvLit(64, uint64(len(v.States))))))
+	// ghost log of pointers sent: case k chosen ==> value k was sent on channel k
+	for k, sc := range v.States {
+		if sc.Dir == types.SendOnly && sc.Send != nil && e.sortOf(sc.Send.Type()).kind == skRef {
+			e.logSend(st, e.val(sc.Chan), e.val(sc.Send), eq(idx, bvLit(64, uint64(k))))
+		}
+	}
 	res := []string{idx, e.declare("selok", sortBool)}
 	for i := 2; i < tup.Len(); i++ {
 		res = append(res, e.declareInput(st, "selrecv", tup.At(i).Type()))
@@ -524,6 +530,7 @@ func (e *fnEnc) checkFrameCallMods(st *state, c *ssa.CallCommon, fc *FuncContrac
 		addrs := cenv.modAddrs(m)
 		for _, a := range addrs {
 			switch {
+			case a.ghostFlag != "":
 			case a.mapObj != "":
 				e.frameCheck(st, a.mapObj, c.Pos(), "call:"+shortCallee(fc.Key))
 			case a.region != "":
@@ -539,6 +546,14 @@ func (e *fnEnc) checkFrameCallMods(st *state, c *ssa.CallCommon, fc *FuncContrac
 func (e *fnEnc) havocMods(st *state, fc *FuncContract, cenv *env) {
 	for _, m := range fc.Modifies {
 		for _, a := range cenv.modAddrs(m) {
+			if a.ghostFlag != "" {
+				mapCellSorts["gflag"] = sortBool
+				nv := e.declare("gflag", sortBool)
+				old := fmt.Sprintf("(select %s %s)", e.heap(st, "gflag", sortBool), a.ghostFlag)
+				e.assume(st, implies(old, nv)) // monotone
+				e.setHeap(st, "gflag", sortBool, fmt.Sprintf("(store %s %s %s)", e.heap(st, "gflag", sortBool), a.ghostFlag, nv))
+				continue
+			}
 			if a.mapObj != "" {
 				hk, vk, _, _ := e.mapKeys(a.mapTyp)
 				hs, vs := mapCellSorts[hk], mapCellSorts[vk]
@@ -1060,4 +1075,11 @@ func inRepo(f *ssa.Function) bool {
 		f = f.Parent()
 	}
 	return f.Pkg != nil && strings.HasPrefix(f.Pkg.Pkg.Path(), modPrefix())
+}
+
+func (e *fnEnc) logSend(st *state, ch, val, cond string) {
+	cs := &Sort{name: "(Array Ref Bool)"}
+	mapCellSorts["sentlog"] = cs
+	h := e.heap(st, "sentlog", cs)
+	e.setHeap(st, "sentlog", cs, ite(cond, fmt.Sprintf("(store %s %s (store (select %s %s) %s true))", h, ch, h, ch, val), h))
 }
